@@ -295,6 +295,10 @@ pub use std::sync::Once;
 // Required for `Once` in `no_std` builds.
 pub(crate) mod spin;
 
+#[cfg(feature = "verif-hooks")]
+#[doc(hidden)]
+#[path = "verif.rs"]
+pub mod __verif;
 pub mod callsite;
 pub mod collect;
 pub mod dispatch;
